@@ -1,4 +1,4 @@
-import DFV.Lemmas.C09Examples
+import DFV.Lemmas.C09ExamplesSub
 /-!
 # C09 - OVF files round-trip fields and follow the OVF 1.0/2.0 format
 
@@ -261,6 +261,145 @@ theorem extend_vector_bin_rejected {α} (c : Codec α) (f : OField α) (V : Vali
             rcases hrep with rfl | rfl <;> simp [repWidth] at h0
           · simp only [binValues, hsz, if_true, ne_eq, not_false_eq_true]
             exact ⟨_, rfl⟩
+
+
+/-- **Round trip, text representation**: same statement as `ovf_roundtrip`; the values come
+back as the numbers the text denotes (`repr`/`float` are the trusted `fmt/parse` pair, the
+property grants 1e-9 relative). -/
+theorem ovf_roundtrip_txt {α} [DecidableEq α] (c : Codec α)
+    (isWord : Char → Bool) (W : WordClass isWord) (reserved : String → Bool)
+    (f : OField α) (V : Valid f) (hl : LabelsOk isWord reserved f) (hu : UnitOk f.unit) :
+    ∃ F g, toOvf c f "txt" false = .ok F ∧ fromOvf c isWord reserved F none = .ok g ∧
+      g.mesh.region.pmin = f.mesh.region.pmin ∧ g.mesh.region.pmax = f.mesh.region.pmax ∧
+      g.mesh.region.units = f.mesh.region.units ∧ g.mesh.n = f.mesh.n ∧
+      g.nvdim = f.nvdim ∧ g.unit = f.unit ∧ (1 < f.nvdim → g.vdims = f.vdims) ∧
+      ∀ i j k cc, i < f.mesh.nAt 0 → j < f.mesh.nAt 1 → k < f.mesh.nAt 2 → cc < f.nvdim →
+        g.arr.get [i, j, k, cc] = f.arr.get [i, j, k, cc] := by
+  obtain ⟨labels, vd', hlab, hset, hvd'⟩ := labels_written isWord W reserved f hl V.nv
+  have hF := toOvf_txt c f V labels hlab
+  obtain ⟨e1, e2, e3⟩ := valid_lists f V
+  have hshape : f.arr.shape = [f.mesh.nAt 0, f.mesh.nAt 1, f.mesh.nAt 2, f.nvdim] := by
+    rw [V.shape, ← e3]; rfl
+  have hwd : writeDim f false = f.nvdim := by simp [writeDim]
+  have hcount : (flatPayload f).length = natProd [f.mesh.nAt 0, f.mesh.nAt 1, f.mesh.nAt 2] * f.nvdim := by
+    rw [flatPayload_length f _ _ _ _ hshape]; simp [natProd]; ring
+  have hnpos : 0 < natProd [f.mesh.nAt 0, f.mesh.nAt 1, f.mesh.nAt 2] := by
+    apply natProd_pos
+    intro m hm
+    simp only [List.mem_cons, List.mem_nil_iff, or_false] at hm
+    rcases hm with rfl | rfl | rfl
+    · exact V.npos 0 (by omega)
+    · exact V.npos 1 (by omega)
+    · exact V.npos 2 (by omega)
+  have hrows : readText (textRows c f false) (natProd [f.mesh.nAt 0, f.mesh.nAt 1, f.mesh.nAt 2]) f.nvdim
+      = .ok (flatPayload f) := by
+    unfold textRows
+    simp only [Bool.false_eq_true, if_false]
+    have : (flatPayload f).length / f.nvdim = natProd [f.mesh.nAt 0, f.mesh.nAt 1, f.mesh.nAt 2] := by
+      rw [hcount]; exact Nat.mul_div_cancel _ V.nv
+    rw [this]
+    exact readText_rows _ _ _ hnpos V.nv hcount c.zero
+  have hp := parse_txt_ok c
+    { first := "# OOMMF OVF 2.0", lines := headerLines f false labels ["Text"],
+      body := .text (textRows c f false) (footerLines ["Text"]) }
+    (writtenHeader f false labels) f.mesh.region.lo f.mesh.region.hi f.mesh.cellAt f.mesh.nAt
+    (f.mesh.region.units.getD 0 "") (headerOf_written f false labels) V.lt V.npos (fun a _ => rfl)
+    ["Text"] (by decide +kernel) rfl (scan_written f false labels _)
+    f.nvdim (by rw [← hwd]; exact valueDim_written f false labels)
+    _ _ rfl _ hrows
+  have hg := fromOvf_of_parse c isWord reserved _ _ _ _ _ f.nvdim V.nv _ _ hp hcount vd'
+    (by rw [labelsOf_written]; exact hset)
+  refine ⟨_, _, hF, hg, e1, e2, V.units.symm, e3, rfl, ?_, hvd', ?_⟩
+  · show unitOf (writtenHeader f false labels) = f.unit
+    rw [unitOf_written]
+    exact unit_roundtrip' f false hu (by rw [hwd]; exact V.nv)
+  · intro i j k cc hi hj hk hcc
+    show ((NDA.ofList ([f.mesh.nAt 0, f.mesh.nAt 1, f.mesh.nAt 2].reverse ++ [f.nvdim])
+      (flatPayload f) c.zero).transpose [2, 1, 0, 3]).get [i, j, k, cc] = _
+    rw [transpose_get4 _ (by simp [NDA.ofList, NDA.ofArray]), ofList_get]
+    have hpos : flatC ([f.mesh.nAt 0, f.mesh.nAt 1, f.mesh.nAt 2].reverse ++ [f.nvdim]) [k, j, i, cc]
+        = pos (f.mesh.nAt 0) (f.mesh.nAt 1) f.nvdim i j k cc := by
+      rw [pos_eq_flatC _ _ (f.mesh.nAt 2)]; rfl
+    rw [hpos, flatPayload_getD f _ _ _ _ hshape i j k cc hi hj hk hcc]
+
+
+/-! ## Subregions through the side-car file -/
+
+/-- **Side-car file**: subregions written by `save_subregions` (name ↦ `Region.to_dict()`, in
+insertion order) are accepted again by `load_subregions` on the mesh read from the OVF file -
+`Region(**val)`, containment, divisibility into cells and alignment all pass for every list
+of boxes of whole cells - and come back with the same names, order and corners, carrying the
+read mesh's dims, units and tolerance. -/
+theorem subregions_sidecar (m m' : Mesh) (M : Mesh3 m')
+    (h : ∀ p ∈ m.subs, ∃ i j, SubOf m' p.2 i j) :
+    loadSub m' (saveSub m) = .ok { m' with subs := m.subs.map fun p => (p.1, retag m' p.2) } := by
+  unfold loadSub saveSub
+  have key : ∀ (l : List (String × Region)), (∀ p ∈ l, ∃ i j, SubOf m' p.2 i j) →
+      l.mapM (fun p => (loadOneSub m' p.2).map fun r => (p.1, r))
+        = .ok (l.map fun p => (p.1, retag m' p.2)) := by
+    intro l hl
+    induction l with
+    | nil => rfl
+    | cons p ps ih =>
+      obtain ⟨i, j, S⟩ := hl p (by simp)
+      rw [List.mapM_cons, loadOneSub_ok m' M p.2 i j S, ih (fun q hq => hl q (by simp [hq]))]
+      rfl
+  rw [key m.subs h]
+
+/-- names, order and corners are those that were saved -/
+theorem subregions_sidecar_corners (m m' m'' : Mesh) (M : Mesh3 m')
+    (h : ∀ p ∈ m.subs, ∃ i j, SubOf m' p.2 i j) (hl : loadSub m' (saveSub m) = .ok m'') :
+    m''.subs.map (fun p => (p.1, p.2.pmin, p.2.pmax)) = m.subs.map (fun p => (p.1, p.2.pmin, p.2.pmax))
+      ∧ m''.n = m'.n ∧ m''.region = m'.region := by
+  rw [subregions_sidecar m m' M h] at hl
+  injection hl with hl
+  subst hl
+  simp [List.map_map, Function.comp_def, retag]
+
+
+/-- **Round trip with subregions**: reading the written file together with the written
+side-car file gives the mesh of the plain round trip carrying the saved subregions (same
+names, order and corners), for every list of subregions made of whole cells. -/
+theorem ovf_roundtrip_subregions {α} [DecidableEq α] (c : Codec α) (narrow : α → α) (L : c.Lawful narrow)
+    (isWord : Char → Bool) (W : WordClass isWord) (reserved : String → Bool)
+    (f : OField α) (V : Valid f) (hl : LabelsOk isWord reserved f)
+    (hs : ∀ p ∈ f.mesh.subs, ∃ i j, SubOf f.mesh p.2 i j)
+    (rep : String) (w : Nat) (hrep : (rep = "bin4" ∧ w = 4) ∨ (rep = "bin8" ∧ w = 8)) :
+    ∃ F g, toOvf c f rep false = .ok F ∧
+      fromOvf c isWord reserved F (some (saveSub f.mesh)) = .ok g ∧
+      g.mesh.subs.map (fun p => (p.1, p.2.pmin, p.2.pmax)) = f.mesh.subs.map (fun p => (p.1, p.2.pmin, p.2.pmax)) ∧
+      g.mesh.n = f.mesh.n ∧ g.mesh.region.pmin = f.mesh.region.pmin ∧ g.mesh.region.pmax = f.mesh.region.pmax := by
+  obtain ⟨labels, vd', hlab, hset, _⟩ := labels_written isWord W reserved f hl V.nv
+  have hw : w = 4 ∨ w = 8 := by rcases hrep with ⟨_, h⟩ | ⟨_, h⟩ <;> simp [h]
+  have hF := toOvf_bin c f V rep w hrep labels hlab
+  obtain ⟨e1, e2, e3⟩ := valid_lists f V
+  have hshape : f.arr.shape = [f.mesh.nAt 0, f.mesh.nAt 1, f.mesh.nAt 2, f.nvdim] := by
+    rw [V.shape, ← e3]; rfl
+  have hwd : writeDim f false = f.nvdim := by simp [writeDim]
+  have hcount : (flatPayload f).length = natProd [f.mesh.nAt 0, f.mesh.nAt 1, f.mesh.nAt 2] * f.nvdim := by
+    rw [flatPayload_length f _ _ _ _ hshape]; simp [natProd]; ring
+  have hp := parse_bin_ok c narrow L
+    { first := "# OOMMF OVF 2.0", lines := headerLines f false labels ["Binary", toString w],
+      body := .bin (c.enc true w (c.magic w) ++ ((flatPayload f).flatMap (c.enc true w)
+                ++ 10 :: footerBytes ["Binary", toString w])) }
+    (writtenHeader f false labels) f.mesh.region.lo f.mesh.region.hi f.mesh.cellAt f.mesh.nAt
+    (f.mesh.region.units.getD 0 "") (headerOf_written f false labels) V.lt V.npos (fun a _ => rfl)
+    w hw ["Binary", toString w] (width_words w hw) (scan_written f false labels _)
+    f.nvdim V.nv (by rw [← hwd]; exact valueDim_written f false labels)
+    (flatPayload f) (10 :: footerBytes ["Binary", toString w])
+    (by
+      have : isV2 "# OOMMF OVF 2.0" = true := by decide +kernel
+      simp only [this])
+    hcount
+  have M := mesh3_meshOf f.mesh.region.lo f.mesh.region.hi f.mesh.nAt (f.mesh.region.units.getD 0 "") V.lt V.npos
+  have hsub := subregions_sidecar f.mesh _ M
+    (fun p hp => by
+      obtain ⟨i, j, S⟩ := hs p hp
+      exact ⟨i, j, subOf_meshOf f _ p.2 i j S⟩)
+  have hg := fromOvf_of_parse_side c isWord reserved _ (some (saveSub f.mesh)) _ _ f.mesh.nAt rfl f.nvdim V.nv _ _ hp
+    hsub (by rw [List.length_map]; exact hcount) vd' (by rw [labelsOf_written]; exact hset)
+  refine ⟨_, _, hF, hg, ?_, e3, e1, e2⟩
+  simp [List.map_map, Function.comp_def, retag]
 
 
 /-! ## Foreign files and the independent reader -/
@@ -615,5 +754,19 @@ example : ∃ g, fromOvf toyCodec isWordC (fun _ => false)
   have := hd 0 1 0 2 (by decide) (by decide) (by decide) (by decide)
   rw [this]; rfl
 
+
+/-- the side-car theorems apply: `exFieldS` carries a subregion of whole cells, and it comes back -/
+example : ∃ F g, toOvf toyCodec exFieldS "bin8" false = .ok F ∧
+    fromOvf toyCodec isWordC (fun s => s == "norm") F (some (saveSub exFieldS.mesh)) = .ok g ∧
+    g.mesh.subs.map (fun p => (p.1, p.2.pmin, p.2.pmax)) = [("top_half", [0, -1/2, 3], [1/2, 0, 5])] := by
+  obtain ⟨F, g, h1, h2, h3, _⟩ := ovf_roundtrip_subregions toyCodec id toyCodec_lawful isWordC isWordC_class
+    (fun s => s == "norm") exFieldS exFieldS_valid exFieldS_labels
+    (by
+      intro p hp
+      have : p = ("top_half", exSub) := by simpa [exFieldS] using hp
+      subst this
+      exact ⟨_, _, exSub_of⟩)
+    "bin8" 8 (Or.inr ⟨rfl, rfl⟩)
+  exact ⟨F, g, h1, h2, h3⟩
 
 end DFV.C09
